@@ -153,6 +153,18 @@ def dyn_signature(arrays: Obj):
     return ("M", tuple(keys))
 
 
+STATIC_NAMES = ("inv_permittivities", "inv_permeabilities", "electric_conductivity", "magnetic_conductivity", "dispersive_c1", "dispersive_c2", "dispersive_c3", "dispersive_c4")
+
+
+def static_signature(arrays: Obj):
+    """The material arrays a step sees (a step with a conductivity missing is a different step)."""
+    out = []
+    for n in STATIC_NAMES:
+        v = arrays.attrs.get(n)
+        out.append((n, None if v is None else leaf_key(v)))
+    return tuple(out)
+
+
 def field_signature(arrays: Obj):
     """History of the fields alone (detector states may lag behind when a step does not record them)."""
     keys = [(p, leaf_key(v)) for p, v in _leaves(arrays.attrs["fields"], ("fields",))]
@@ -344,7 +356,7 @@ class Driver:
         t, arrays = kw["state"]
         # record_boundaries only feeds the recording state (decided on `forward` itself by the checks), so the
         # history of fields / detectors carries the other two flags and the recording history the third
-        flags = self._flags(kw, ("record_detectors", "simulate_boundaries"))
+        flags = self._flags(kw, ("record_detectors", "simulate_boundaries")) + (("materials", static_signature(arrays)),)
         rflag = self._flags(kw, ("record_boundaries",))
         t = to_rat(t)
         self.events.append(("forward", t, flags + rflag, dyn_signature(arrays), rec_signature(arrays)))
@@ -359,7 +371,7 @@ class Driver:
         kw = dict(zip(names, a))
         kw.update(k)
         t, arrays = kw["state"]
-        flags = self._flags(kw, ("record_detectors", "reset_fields"))
+        flags = self._flags(kw, ("record_detectors", "reset_fields")) + (("materials", static_signature(arrays)),)
         t = to_rat(t)
         self.events.append(("backward", t, flags, dyn_signature(arrays), rec_signature(arrays)))
         h = fuse("bwd", flags, t, t - 1, dyn_signature(arrays))
